@@ -11,3 +11,53 @@ Print Assumptions C02_castling_keeps_clock_running.
 Theorem C02_side_alternates : forall p m, stm (make_move p m) = opp (stm p).
 Proof. intros p m. reflexivity. Qed.
 Print Assumptions C02_side_alternates.
+
+(* ---- the engine's do_move REFINES the rules ----
+   For every Zobrist table, every well-formed representation state (sizes, piece codes, u8 clock below 255, castling mask
+   and en-passant square consistent with the board: RepRefineLegal.rep_ok) and every pseudo-legal - in particular every
+   legal - move of the rules, the algorithmic model of Position::do_move applied to the engine's encoding of the move
+   yields a state whose board, side to move, castling rights, en-passant square, half-move clock and move number are
+   exactly those of Rules.make_move.  (PositionRep.do_move is tied to the C++ field by field by checks/c02.py.) *)
+From CV Require Import Engine.RepRefine Engine.RepRefineLegal Engine.RepRoundTripNormal Base.NIter.
+From Coq Require Import NArith List Lia.
+Local Open Scope N_scope.
+
+Theorem C02_do_move_refines_make_move :
+  forall (zt : zobrist) (s : rep) (m : move),
+    rep_ok s -> pseudo_legal (rep_abs s) m = true ->
+    rep_abs (fst (do_move zt s (enc m))) = make_move (rep_abs s) m.
+Proof. exact do_move_refines. Qed.
+Print Assumptions C02_do_move_refines_make_move.
+
+Theorem C02_do_move_refines_make_move_legal :
+  forall (zt : zobrist) (s : rep) (m : move),
+    rep_ok s -> legal (rep_abs s) m = true ->
+    rep_abs (fst (do_move zt s (enc m))) = make_move (rep_abs s) m.
+Proof. exact do_move_refines_legal. Qed.
+Print Assumptions C02_do_move_refines_make_move_legal.
+
+(* the three shape-level theorems the refinement is assembled from *)
+Theorem C02_do_move_castling : forall (zt : zobrist) (s : rep) (ks : bool), wf_scalars s ->
+  nthd (r_board s) (sq_at (if r_side s =? 0 then 0 else 7) 4) 0 = make_piece (r_side s) KING ->
+  nthd (r_board s) (sq_at (if r_side s =? 0 then 0 else 7) (if ks then 7 else 0)) 0 = make_piece (r_side s) ROOK ->
+  rep_abs (fst (do_move zt s (enc (Castle ks)))) = make_move (rep_abs s) (Castle ks).
+Proof. exact castle_refines. Qed.
+Print Assumptions C02_do_move_castling.
+
+(* non-vacuity: the start position is a well-formed state, 1.e4 is legal in it, and the conclusion holds there *)
+Example C02_refinement_example :
+  let zt := {| z_piece := fun p s => p * 64 + s + 1; z_castling := fun c => 1000 + c; z_side := 7777; z_ep := fun f => 3000 + f |} in
+  let s := rep_of_position zt Rules.initial_position in
+  rep_ok s /\ legal (rep_abs s) (Normal 12 28 None) = true /\ legal (rep_abs s) (Normal 6 21 None) = true /\
+  rep_abs (fst (do_move zt s (enc (Normal 12 28 None)))) = make_move Rules.initial_position (Normal 12 28 None).
+Proof.
+  cbv zeta. split; [|vm_compute; repeat split; reflexivity].
+  split; [|split; [|split; vm_compute; reflexivity]].
+  - split; [vm_compute; reflexivity|]. split; [vm_compute; reflexivity|]. split; [vm_compute; reflexivity|]. split; [vm_compute; reflexivity|].
+    exists 1%Z. split; [lia|vm_compute; reflexivity].
+  - intros i Hi.
+    assert (H : forallN 64 (fun i => nthd (r_board (rep_of_position
+               {| z_piece := fun p s => p * 64 + s + 1; z_castling := fun c => 1000 + c; z_side := 7777; z_ep := fun f => 3000 + f |}
+               Rules.initial_position)) i 0 <? 13) = true) by (vm_compute; reflexivity).
+    apply N.ltb_lt. exact (forallN_spec _ _ H i Hi).
+Qed.
